@@ -17,19 +17,19 @@ import (
 
 // Config controls one exploration.
 type Config struct {
-	MaxSteps      int      // SSA steps per path
-	MaxPaths      int      // safety valve
-	InitPkgs      []string // import-path prefixes whose package init runs
-	TrackFields   []string // "pkg.Type.field" whose accesses become events
+	MaxSteps       int      // SSA steps per path
+	MaxPaths       int      // safety valve
+	InitPkgs       []string // import-path prefixes whose package init runs
+	TrackFields    []string // "pkg.Type.field" whose accesses become events
 	TrackStructsOf []string // package names: every field of every struct of these packages is tracked
-	TrackAllocs   []string // "func-substring:var" heap locals whose accesses become events
-	TrackMakeMaps []string // function-name substrings whose MakeMap results are tracked
-	NewestFirst   bool     // thread pick policy (second extraction)
-	Bridge        Bridge   // parser bridge (nil = unsupported)
-	SolverTimeout int      // ms
-	StepsAreHang  bool     // exhausting the step budget is a violation (C09) instead of inconclusive
-	Z3            string
-	Log           func(string)
+	TrackAllocs    []string // "func-substring:var" heap locals whose accesses become events
+	TrackMakeMaps  []string // function-name substrings whose MakeMap results are tracked
+	NewestFirst    bool     // thread pick policy (second extraction)
+	Bridge         Bridge   // parser bridge (nil = unsupported)
+	SolverTimeout  int      // ms
+	StepsAreHang   bool     // exhausting the step budget is a violation (C09) instead of inconclusive
+	Z3             string
+	Log            func(string)
 }
 
 // Violation is a failed assertion or another reportable outcome of a path.
@@ -134,6 +134,8 @@ type interpreter struct {
 	choices      map[string]string
 	onces        map[*value]*onceState
 	pools        map[*value]*poolState
+	atomicMu     map[*value]*value
+	bufs         map[*value]*[]byte
 	nextChanID   int
 	schedCache   map[string]bool
 	schedHits    int
@@ -381,6 +383,8 @@ func (i *interpreter) runPath(fn *ssa.Function, prefix []int) (res *PathResult) 
 	i.wgs = map[*value]*wgState{}
 	i.onces = nil
 	i.pools = nil
+	i.atomicMu = nil
+	i.bufs = nil
 	i.counts = map[string]int{}
 	i.choices = map[string]string{}
 	i.trace = nil
